@@ -58,7 +58,7 @@ def mangle(cls, attr):
 
 
 class Engine:
-    def __init__(self, repo=None, feas_timeout_ms=3000):
+    def __init__(self, repo=None, feas_timeout_ms=1000):
         self.repo = repo or Repo()
         self.contracts = {}       # key -> Contract (used at call sites)
         self.models = {}          # key -> handler(engine, st, args, kwargs) -> [(st, val)]
@@ -76,6 +76,10 @@ class Engine:
         self.spec_mode = 0
         self.axioms = []
         self._axiom_keys = set()
+        # path-feasibility queries leave the ghost-function axioms out: a path that is only
+        # infeasible because of them is explored anyway and its obligations are discharged
+        # (with the axioms) as vacuously true -- sound, and much cheaper
+        self.feas_with_axioms = False
 
     def add_axiom(self, ax):
         k = ax.sexpr()
@@ -84,8 +88,33 @@ class Engine:
             self.axioms.append(ax)
 
     # ------------------------------------------------------------------ solver helpers
+    _q_cache = {}
+
+    def has_quantifier(self, t):
+        k = t.get_id()
+        c = self._q_cache.get(k)
+        if c is not None:
+            return c
+        todo, seen, found = [t], set(), False
+        while todo and not found:
+            x = todo.pop()
+            i = x.get_id()
+            if i in seen:
+                continue
+            seen.add(i)
+            if z3.is_quantifier(x):
+                found = True
+            elif z3.is_app(x):
+                todo.extend(x.children())
+            if len(seen) > 4000:
+                break
+        self._q_cache[k] = found
+        return found
+
     def feasible(self, st, extra=None):
-        conj = list(st.pc)
+        # quantified facts (preconditions over the whole source, ...) are left out of the
+        # path-feasibility queries: fewer constraints can only make more paths feasible
+        conj = [t for t in st.pc if not self.has_quantifier(t)]
         if extra is not None:
             if isinstance(extra, bool):
                 if not extra:
@@ -97,7 +126,7 @@ class Engine:
         s = z3.Solver()
         s.set("timeout", self.feas_timeout_ms)
         s.add(*conj)
-        if self.axioms:
+        if self.axioms and self.feas_with_axioms:
             s.add(*self.axioms)
         t0 = time.time()
         r = s.check()
@@ -213,6 +242,11 @@ class Engine:
         if cur is not None and cur.node is not None and not self.spec_mode and "__closure__" not in st.frames[-1]:
             if name in self.local_names(cur):
                 return Raised(ExcVal("UnboundLocalError", (name,)))
+        if cur is not None and cur.cls is not None and cur.qualname.endswith("<class>"):
+            # evaluation of a class-level initialiser: names of the class body come first
+            n = self.repo.class_attr_node(cur.cls, name)
+            if isinstance(n, ast.FunctionDef):
+                return FuncRef(cur.cls.module, f"{cur.cls.name}.{name}", n, cur.cls)
         mod = self.cur_module()
         if mod is not None:
             v = self.module_global(st, mod, name)
@@ -276,6 +310,8 @@ class Engine:
                           "argparse", "math"):
                 if attr is None:
                     return PyModule(dotted)
+                if dotted == "typing" and attr == "cast":
+                    return Builtin("typing.cast", lambda E_, s_, a, k: [(s_, a[1])])
                 if dotted == "typing":
                     return Opaque("typing." + attr)
                 return self.pymodule_attr(PyModule(dotted), attr)
@@ -407,7 +443,39 @@ class Engine:
         env.update({k: v for k, v in st.frames[-1].items() if k != "__closure__"})
         return [(st, LambdaVal(node, env, self.current_func[-1] if self.current_func else None))]
 
+    def ev_BoolOp_spec(self, node, st):
+        """spec expressions are pure: `and` / `or` are combined into one formula without
+        forking; operand i is evaluated under the assumption that makes Python reach it"""
+        is_and = isinstance(node.op, ast.And)
+        work = st.fork()
+        terms = []
+        for i, vnode in enumerate(node.values):
+            base = len(work.pc)
+            res = self.ev(vnode, work.fork())
+            alts = []
+            for s2, v in res:
+                if isinstance(v, Raised):
+                    if self.feasible(s2):
+                        raise SpecError(f"spec operand {ast.unparse(vnode)} raises {v.exc.type} {v.exc.args}")
+                    continue
+                if not isinstance(v, (bool, SBool)) and i == 0:
+                    return None
+                t = bool_term(truth(v, s2))
+                delta = s2.pc[base:]
+                alts.append(z3.And(*delta, t) if delta else t)
+            ti = z3.Or(*alts) if len(alts) != 1 else alts[0]
+            tis = ops.simplify_bool(ti)
+            terms.append(ti)
+            if isinstance(tis, bool) and tis != is_and:
+                break                     # decided: later operands are not evaluated (as in Python)
+            work.pc.append(ti if is_and else z3.Not(ti))
+        return [(st, mk_bool(z3.And(*terms) if is_and else z3.Or(*terms)))]
+
     def ev_BoolOp(self, node, st):
+        if self.spec_mode:
+            r = self.ev_BoolOp_spec(node, st)
+            if r is not None:
+                return r
         is_and = isinstance(node.op, ast.And)
 
         def go(s, i):
@@ -681,7 +749,9 @@ class Engine:
         key = fref.key
         if key in self.models:
             return self.models[key](self, s, args, kwargs)
-        if key in self.contracts and self.contracts[key] is not self.verifying:
+        if key in self.contracts:
+            # also for a recursive call of the function under verification: verify() runs
+            # the body directly, so every call that arrives here is judged by the contract
             return self.contracts[key].apply_at_call(self, s, fref, args, kwargs)
         if len(self.current_func) > self.max_inline_depth:
             raise Unsupported(f"inline depth exceeded at {key} (recursion needs a contract)")
@@ -801,12 +871,25 @@ class Engine:
         return [(st, FLOW_NEXT)]
 
     def ex_FunctionDef(self, stmt, st):
-        env = dict(st.frames[-1].get("__closure__", {}))
-        env.update({k: v for k, v in st.frames[-1].items() if k != "__closure__"})
-        cur = self.current_func[-1]
-        f = FuncRef(cur.module, cur.qualname + ".<locals>." + stmt.name, stmt, cur.cls)
-        st.locals[stmt.name] = ("__closure_func__", f, st.frames[-1])
-        raise Unsupported("nested function definition")
+        """nested helper: callable as an opaque function that may only append diagnostics.
+        Sound when the helper writes no attribute / outer variable and calls nothing that
+        moves the lexer or the cursor -- checked syntactically here"""
+        for x in ast.walk(stmt):
+            if isinstance(x, ast.Attribute) and isinstance(x.ctx, (ast.Store, ast.Del)):
+                raise Unsupported(f"nested function {stmt.name} writes an attribute")
+            if isinstance(x, (ast.Nonlocal, ast.Global, ast.Return)) and not (isinstance(x, ast.Return) and x.value is None):
+                raise Unsupported(f"nested function {stmt.name}: nonlocal/global/return value")
+            if isinstance(x, ast.Call) and isinstance(x.func, ast.Attribute) and \
+                    x.func.attr in ("pop", "pop_tokens", "update", "setrecursionlimit"):
+                raise Unsupported(f"nested function {stmt.name} calls .{x.func.attr}()")
+
+        def opaque(E, s, args, kw):
+            E.havoc_ghost(s)
+            s.notes.append(f"nested function {stmt.name} is treated as opaque: it may only append diagnostics "
+                           "(syntactic check: no attribute write, no nonlocal, no cursor-moving call)")
+            return [(s, None)]
+        st.locals[stmt.name] = Builtin("nested:" + stmt.name, opaque)
+        return [(st, FLOW_NEXT)]
 
     def ex_Assign(self, stmt, st):
         def k(s, v):
